@@ -2,4 +2,25 @@
 open Model
 open Util
 
-let dispatch kind (_tk : toks) : string = "UNKNOWN-KIND " ^ kind
+let str_runs (rs : run list) : string =
+  let b = Buffer.create 256 in
+  Buffer.add_string b ("RUNS " ^ string_of_int (List.length rs));
+  List.iter (fun r -> match r with
+      | RRle (c, v) -> Buffer.add_string b (" R " ^ tok_of_n c ^ " " ^ tok_of_n v)
+      | RBp gs -> Buffer.add_string b (" B " ^ string_of_int (List.length gs));
+        List.iter (fun g -> List.iter (fun v -> Buffer.add_string b (" " ^ tok_of_n v)) g) gs) rs;
+  Buffer.contents b
+
+let dispatch kind (tk : toks) : string =
+  match kind with
+  | "rleenc" -> let w = tn tk in let ls = tnlist tk in hex_of_bytes (rle_encode w ls)
+  | "rledec" -> let w = tn tk in let bs = tbytes tk in
+    (match rle_read w bs with
+     | Ok (vals, n) -> "OK " ^ string_of_int (int_of_nat n) ^ " " ^ str_nlist vals
+     | Err -> "ERR"
+     | Panic -> "PANIC")
+  | "specdec" -> let w = tn tk in let bs = tbytes tk in
+    (match hybrid_decode_framed w bs with
+     | Some (rs, rest) -> str_runs rs ^ " REST " ^ string_of_int (List.length rest)
+     | None -> "NONE")
+  | _ -> "UNKNOWN-KIND " ^ kind
